@@ -32,7 +32,7 @@ func init() {
 			"one evaluation = one (program, fault set) run; non-trivial = a run in which an injected fault fired and at least one later operation was compared with the reference, classed by (variant, primitive kind and operation kind of each fault, inside/outside explicit transaction)",
 		Assumptions: []string{
 			"the fake's failure semantics: a failed Exec/Query/Rows.Next aborts the transaction (later statements fail, Commit rolls back with ErrTxCommitRollback); a failed Commit or Rollback ends the transaction without applying its writes; a failed Scan closes the rows only; a failed BeginTx starts nothing",
-			"client protocol: Start only without an open explicit transaction, Stop/Abort only with one, after any error (including not-found) inside an explicit transaction the next client step is Abort; after Stop (failed or not) the explicit transaction is over",
+			"client protocol: Start only without an open explicit transaction, Stop/Abort only with one, after any error (including not-found) inside an explicit transaction the next client step is Abort - or Stop, which may then fail but, if it reports success, makes the transaction's acknowledged writes visible; after Stop (failed or not) the explicit transaction is over",
 			"a failed Rollback is not required to be reported (the statement lists begin, statement, row fetch, commit); Abort (no return value), Close's return value and Dump are not constrained",
 			"inside an explicit transaction reads see the transaction's own writes (Postgres semantics); writes of an explicit transaction still open at Close may or may not become visible (per key)",
 			"redundant Commit/Rollback on an already ended transaction are not counted as a second end (pgx documents them as safe); statements on an ended transaction are",
@@ -317,6 +317,8 @@ func c13Exec(variant string, prog []int, faults []int, wantTrace bool) *c13Out {
 		expVal string
 		hasVal bool
 		undet  bool
+		// Stop after an operation of the transaction failed: may fail or succeed (see the client protocol)
+		anyOutcome bool
 		// second-connection view problem found right after the step ("" if none / not checked)
 		viewSig, viewMsg string
 	}
@@ -391,6 +393,7 @@ func c13Exec(variant string, prog []int, faults []int, wantTrace bool) *c13Out {
 	run := func(op int, forced bool) bool {
 		st := step{op: op, forced: forced, undet: undetermined}
 		st.expOK = m.faultFreeOK(op)
+		st.anyOutcome = op == c13Stop && m.txErr
 		if op == c13Get1 || op == c13Get2 || op == c13GetM {
 			st.expVal, st.hasVal = m.lookup(c13GetKey(op))
 		}
@@ -459,7 +462,9 @@ func c13Exec(variant string, prog []int, faults []int, wantTrace bool) *c13Out {
 
 	alive := true
 	for _, op := range prog {
-		if m.inTx && m.txErr {
+		// ... except that a client may also end the transaction with Stop without having looked at the
+		// error: Stop is then free to fail, but if it reports success the writes of the transaction are there
+		if m.inTx && m.txErr && op != c13Stop {
 			if alive = run(c13Abort, true); !alive {
 				break
 			}
@@ -544,7 +549,7 @@ func c13Exec(variant string, prog []int, faults []int, wantTrace bool) *c13Out {
 			})
 		}
 		// (c) after the last fault every operation behaves as the reference says
-		if i > last && !s.undet && s.op != c13Close && s.op != c13Abort {
+		if i > last && !s.undet && !s.anyOutcome && s.op != c13Close && s.op != c13Abort {
 			compared++
 			switch {
 			case s.expOK && s.res.err != nil:
@@ -733,7 +738,7 @@ func c13Run(c *mc.Ctx) {
 				// the reference decides conformance of the fault-free client: a pending error in the
 				// explicit transaction is followed by the client's Abort before the next step
 				mm := c13CloneModel(m)
-				if mm.inTx && mm.txErr {
+				if mm.inTx && mm.txErr && op != c13Stop {
 					mm.apply(c13Abort, true)
 				}
 				if !mm.applicable(op) {
